@@ -35,6 +35,8 @@
 
 #include <pthread.h>
 #include <stdlib.h>
+#include <sys/types.h>
+#include <unistd.h>
 
 
 
@@ -50,6 +52,14 @@ list_t               snoopy_tsrm_threadRepo_data = {
     .count = 0,
 };
 list_t              *snoopy_tsrm_threadRepo = &snoopy_tsrm_threadRepo_data;
+
+/*
+ * Set by the prepare handler in the forking thread, cleared by the parent/child handlers. A forked child that
+ * enters the library before snoopy_tsrm_atfork_child() has run (from an atfork child handler that was registered
+ * before ours, which therefore runs first) still sees it set - with another process ID than the one recorded.
+ */
+static __thread int  snoopy_tsrm_forkInProgress = SNOOPY_FALSE;
+static pid_t         snoopy_tsrm_forkParentPid  = 0;
 
 
 
@@ -87,6 +97,12 @@ void snoopy_tsrm_ctor ()
 
     // Initialize threading support
     pthread_once(&snoopy_tsrm_init_onceControl, &snoopy_tsrm_init);
+
+    // Forked child whose turn to run snoopy_tsrm_atfork_child() has not come yet: the mutex is still held on behalf
+    // of a thread of the parent process and would never be released - do the child-side cleanup now.
+    if ((SNOOPY_TRUE == snoopy_tsrm_forkInProgress) && (getpid() != snoopy_tsrm_forkParentPid)) {
+        snoopy_tsrm_atfork_child();
+    }
 
     // Get my thread id - before mutex, no need for mutex here
     curTid = snoopy_tsrm_getCurrentThreadId();
@@ -192,6 +208,8 @@ void snoopy_tsrm_init ()
 void snoopy_tsrm_atfork_prepare ()
 {
     pthread_mutex_lock(&snoopy_tsrm_threadRepo_mutex);
+    snoopy_tsrm_forkParentPid  = getpid();
+    snoopy_tsrm_forkInProgress = SNOOPY_TRUE;
 }
 
 
@@ -211,6 +229,7 @@ void snoopy_tsrm_atfork_prepare ()
  */
 void snoopy_tsrm_atfork_parent ()
 {
+    snoopy_tsrm_forkInProgress = SNOOPY_FALSE;
     pthread_mutex_unlock(&snoopy_tsrm_threadRepo_mutex);
 }
 
@@ -240,6 +259,7 @@ void snoopy_tsrm_atfork_child ()
     snoopy_tsrm_threadData_t   *tData;
 
     // Re-create the mutex
+    snoopy_tsrm_forkInProgress = SNOOPY_FALSE;
     pthread_mutex_init(&snoopy_tsrm_threadRepo_mutex, &snoopy_tsrm_threadRepo_mutexAttr);
 
     // Remove entries of threads that were not carried over to the child
